@@ -3,6 +3,7 @@ package main
 // P2 lemmas: decision, SMT-checked certificates, witnesses, axioms exported to P1.
 
 import (
+	"sync"
 	"fmt"
 	"go/ast"
 	"regexp"
@@ -379,4 +380,39 @@ func (p *Prog) singleCharClassTest(lang string, term string) string {
 		return ""
 	}
 	return strings.ReplaceAll(rest[:k], "c0", term)
+}
+
+var langAccMu sync.Mutex
+var langAccCache = map[string]*struct {
+	le *langEnv
+	d  *DFA
+}{}
+
+// langAccepts runs a constant string through the automaton of a named language (invalid UTF-8 bytes
+// read as U+FFFD, like the regexp package does).
+func (p *Prog) langAccepts(name, s string) (bool, error) {
+	langAccMu.Lock()
+	defer langAccMu.Unlock()
+	c, ok := langAccCache[name]
+	if !ok {
+		id := &ast.Ident{Name: name}
+		le, err := p.lemmaEnv([]ast.Expr{id})
+		if err != nil {
+			return false, err
+		}
+		d, err := le.dfa(id)
+		if err != nil {
+			return false, err
+		}
+		c = &struct {
+			le *langEnv
+			d  *DFA
+		}{le, d}
+		langAccCache[name] = c
+	}
+	q := c.d.init
+	for _, r := range s {
+		q = int(c.d.delta[q][c.le.al.classOf(r)])
+	}
+	return c.d.acc[q], nil
 }
